@@ -1,7 +1,7 @@
 """C08 helper — "the quantity minimised by a learn step is the defined loss".
 
-learn() leaves the gradient of whatever it called backward() on in the .grad fields of the online network(s)
-(zero_grad is called before backward, not after the step).  This module recomputes the gradient of the DEFINED
+The gradient every value network has at the moment its optimiser steps is recorded from outside (StepRecorder).
+This module recomputes the gradient of the DEFINED
 loss (Bellman target from the tables, mean-squared error / CQL regulariser / C51 cross-entropy) on a deep copy of
 the network taken before the call, so the harness can compare directions.  Autograd is opaque to the Coq model:
 this is an implementation-side oracle clause only.
@@ -23,31 +23,62 @@ def _flat_grads(net):
     return torch.cat(out).numpy().copy() if out else np.zeros(0)
 
 
-def grad_nets(agent, algo, updating):
-    """online networks whose .grad after learn() is the gradient of the value loss alone.
-    Actor-critic learners: only at calls that do not run the actor update (its backward also flows into the critic)."""
+class StepRecorder:
+    """records, for every optimiser step taken inside the with-block, the gradient each parameter has at that moment
+    (a global optimiser step pre-hook: nothing of the library is modified).  This is the gradient the update is
+    computed from, also for critics whose .grad is overwritten later in the same learn call by the actor loss."""
+
+    def __init__(self):
+        self.grads = {}
+        self.steps = 0
+
+    def _hook(self, optimizer, args, kwargs):
+        self.steps += 1
+        for group in optimizer.param_groups:
+            for p in group["params"]:
+                self.grads[id(p)] = None if p.grad is None else p.grad.detach().clone()
+
+    def __enter__(self):
+        from torch.optim.optimizer import register_optimizer_step_pre_hook
+        self._h = register_optimizer_step_pre_hook(self._hook)
+        return self
+
+    def __exit__(self, *a):
+        self._h.remove()
+        return False
+
+
+def grad_nets(agent, algo, updating=None):
+    """the online value networks: their gradient at the optimiser step must be the gradient of the defined loss"""
     if algo in SINGLE_DISCRETE or algo == "Rainbow":
         return [("actor", agent.actor)]
-    if updating:
-        return []
     if algo == "DDPG":
         return [("critic", agent.critic)]
     if algo == "TD3":
         return [("critic_1", agent.critic_1), ("critic_2", agent.critic_2)]
-    if algo == "MATD3":
-        out = []
-        for i in range(len(agent.agent_ids)):
+    out = []
+    for i in range(len(agent.agent_ids)):
+        if algo == "MATD3":
             out += [(f"critic_1[{i}]", agent.critics_1[i]), (f"critic_2[{i}]", agent.critics_2[i])]
-        return out
-    return []          # MADDPG: every call runs the actor update
+        else:
+            out += [(f"critic[{i}]", agent.critics[i])]
+    return out
 
 
-def copies(agent, algo, updating):
-    return [(n, copy.deepcopy(net)) for n, net in grad_nets(agent, algo, updating)]
+def copies(agent, algo, updating=None):
+    return [(n, copy.deepcopy(net)) for n, net in grad_nets(agent, algo)]
 
 
-def impl_grads(agent, algo, updating):
-    return {n: _flat_grads(net) for n, net in grad_nets(agent, algo, updating)}
+def impl_grads(agent, algo, recorded):
+    """gradient each value network had when its optimiser stepped (zeros where no step saw the parameter)"""
+    out = {}
+    for n, net in grad_nets(agent, algo):
+        vec = []
+        for p in net.parameters():
+            g = recorded.get(id(p))
+            vec.append((g if g is not None else torch.zeros_like(p)).reshape(-1).to(torch.float64))
+        out[n] = torch.cat(vec).numpy().copy() if vec else np.zeros(0)
+    return out
 
 
 def _projection(tt, gam, sup, vmin, vmax, dz, N):
@@ -104,7 +135,7 @@ def reference_grads(agent, case, batch, t, nets, agent_ids=None):
                 continue
             proj = _projection(t[key], gam, sup, vmin, vmax, dz, N)
             obs = agent.preprocess_observation(b["obs"])
-            B = obs.shape[0]
+            B = b["reward"].shape[0]
             logp = net(obs, q=False, log=True)[range(B), b["action"].reshape(-1).long()]
             e = e + (-(proj * logp).sum(1))
         w = torch.tensor(t["w"], dtype=torch.float32)
@@ -115,14 +146,15 @@ def reference_grads(agent, case, batch, t, nets, agent_ids=None):
             obs = agent.preprocess_observation(batch["obs"])
             args = (obs, batch["action"])
             ks = list(range(len(nets)))
-        else:            # MATD3: two critics per agent over the stacked observations / actions
+        else:            # MADDPG (one critic per agent) / MATD3 (two): stacked observations / actions in agent_ids order
             st, ac = batch[0], batch[1]
             st = agent.preprocess_observation(st)
             sst = torch.cat([st[a] for a in agent_ids], dim=1)
             sac = torch.cat([ac[a] for a in agent_ids], dim=1)
             args = (sst, sac)
-            tabs = [t["agents"][j // 2] for j in range(len(nets))]
-            ks = [j % 2 for j in range(len(nets))]
+            per = 2 if algo == "MATD3" else 1
+            tabs = [t["agents"][j // per] for j in range(len(nets))]
+            ks = [j % per for j in range(len(nets))]
         for (name, net), ta, k in zip(nets, tabs, ks):
             qns = np.array(ta["qns"])
             y = np.array(ta["r"]) + (1 - np.array(ta["d"])) * g * qns.min(axis=1)
